@@ -128,7 +128,7 @@ func OpsSequential(sp *Spec) []string {
 	ops := Ops(sp)
 	if sp.Kind == "schema" {
 		for i := range sp.Docs {
-			ops = append(ops, fmt.Sprintf("ValidateKept:%d", i))
+			ops = append(ops, fmt.Sprintf("ValidateKept:%d", i), fmt.Sprintf("CheckKept:%d", i))
 		}
 	}
 	return ops
@@ -162,6 +162,29 @@ func Ops(sp *Spec) []string {
 		return []string{"Check", "Len", "Values", "GetAST"}
 	}
 	return []string{"Check", "Len", "Pattern", "Example", "GetAST"}
+}
+
+// scribbleAST writes into every part of a tree the caller was given.
+func scribbleAST(n *jschema.ASTNode) {
+	n.Comment, n.Value = "scribbled", "scribbled"
+	if n.Rules != nil {
+		n.Rules.Set("x-scribbled", jschema.RuleASTNode{TokenType: "string", Value: "scribbled"})
+		_ = n.Rules.Each(func(k string, v jschema.RuleASTNode) error {
+			if v.Properties != nil {
+				v.Properties.Set("x-scribbled", jschema.RuleASTNode{Value: "scribbled"})
+			}
+			for i := range v.Items {
+				v.Items[i].Value = "scribbled"
+			}
+			return nil
+		})
+	}
+	for i := range n.Children {
+		scribbleAST(&n.Children[i])
+	}
+	if len(n.Children) > 0 {
+		n.Children[0], n.Children[len(n.Children)-1] = n.Children[len(n.Children)-1], n.Children[0]
+	}
 }
 
 // Retained is a value handed to the caller together with a snapshot taken when it was returned.
@@ -202,6 +225,11 @@ func Do(o *Obj, op string) (res string, kept []Retained) {
 			n, r := lib.AST(s)
 			j, _ := json.Marshal(n)
 			if r.OK {
+				// a second tree is asked for and written over (what a caller who decorates or prunes
+				// the tree does): the first one, other trees and later answers must not notice
+				if n2, r2 := lib.AST(s); r2.OK {
+					scribbleAST(&n2)
+				}
 				nn := n
 				kept = append(kept, Retained{What: "AST", Live: func() string { b, _ := json.Marshal(nn); return string(b) }, Snapshot: string(j)})
 			}
@@ -231,6 +259,17 @@ func Do(o *Obj, op string) (res string, kept []Retained) {
 				return "not a schema", nil
 			}
 			return canonRes(lib.Check(ty)), nil
+		case len(op) > 10 && op[:10] == "CheckKept:":
+			// Check of the kept Document object (the one ValidateKept validates)
+			var i int
+			fmt.Sscanf(op, "CheckKept:%d", &i)
+			if o.KeptDocs == nil {
+				o.KeptDocs = map[int]jschema.Document{}
+			}
+			if o.KeptDocs[i] == nil {
+				o.KeptDocs[i] = libjson.New("doc", o.Spec.Docs[i])
+			}
+			return canonRes(lib.Safe(o.KeptDocs[i].Check)), nil
 		case len(op) > 13 && op[:13] == "ValidateKept:":
 			// the same Document object every time (it has been validated, by this and maybe by
 			// other schema objects, before): the verdict is that of a fresh document
